@@ -2,6 +2,18 @@
 import json, sys
 props = [json.loads(l) for l in open('/verif/properties.jsonl')]
 CLAIMED = {
+ 'C05': dict(cat='other', tech='static analysis: symbolic evaluation of the kernels (data abstract) + ring-normal-form rewriting proof of the digit/carry identity; ordered call-trace of the limb loop from the region engine',
+   text='Proves in+carry_in = out+2^k*carry_out in Z/2^64 for each of the six argument shapes of znx_normalize and every k of the domain (helpers recognised by idiom; unknown idiom = exit 2), that the argument shapes agree, and the limb-loop structure (order, carry-only passes, zero extension, carry buffer, exact limb selection of the range variant) for every (res_size,a_size) of the box incl. 0. Does not decide integer ranges (|a_i|<=2^62) nor uniqueness of the expansion as a statement about integers.',
+   note='bit-vector axiom 2^k*ashr(t-D(t),k)=t-D(t); box for shapes', ref='DESIGN 3/C05'),
+ 'C07': dict(cat='other', tech='static analysis: dispatch instantiation on both CPU configurations, footprint comparison of region summaries, E4 normal-form comparison (ring polynomials / real polynomials / exact lane maps) of the expressions stored by paired kernels',
+   text='Every accelerated symbol is paired by name with its reference (frozen table; new unpaired symbol = exit 2); constructors select accelerated kernels only as listed partners of the generic choice; each pair, each public dispatcher and each AVX-capable module function has the same write/read footprint and stores expressions with equal normal forms on the box (fp: equality as real polynomials = same function up to rounding order). Assembly kernels: footprint only. Magic-constant conversions vs rint/sitofp and lazy q120 values: counted not comparable, never violations.',
+   note='rounding behaviour not compared; asm arithmetic not modelled; box m,N<=16 (quick)', ref='DESIGN 3/C07'),
+ 'C08': dict(cat='other', tech='static analysis: region engine write sets + E4 ring normal forms of every stored coefficient against op(a_i or 0, b_i or 0)',
+   text='For zero/copy/negate/add/sub/rotate/automorphism and the nine big variants, both module types and CPU paths, all orderings of limb counts in the box incl. 0 and strides > N: the write set is exactly the N coefficients of the first res_size limbs and each stored coefficient is the documented operation of the zero-extended input limbs (as a polynomial over Z/2^64 in the initial input contents); rotate/automorphism limbs are signed permutations of the same input limb and zero beyond the input (which permutation: C09, N/A).',
+   note='box for shapes; all data covered', ref='DESIGN 3/C08'),
+ 'C17': dict(cat='other', tech='static analysis: E4 symbolic lane-wise evaluation; stored expressions compared with layout maps and complex-arithmetic definitions as exact copy maps / real polynomials',
+   text='Block extract/save (reim4, strided, q120x2) are the documented copy maps and mutually inverse; cplx<->reim4 conversion is a bijection of all m numbers with real/imaginary parts of 4 consecutive numbers per block and round trip = identity; reim4 dot products, reim/reim4/cplx mul and addmul (incl. undispatched SSE/AVX-512 kernels) and the windowed convolution equal the complex-arithmetic definition as polynomials over the reals for every length of the box incl. 0, both CPU paths. The rounding bound itself is not decided.',
+   note='rounding order abstracted; m<=64 (quick)', ref='DESIGN 3/C17'),
  'C11': dict(cat='other', tech='static analysis: abstract interpretation of LLVM IR with closed-form loop acceleration (exact modular trip counts) producing symbolic strided access regions, instantiated on a box of shape tuples and checked against a frozen memory contract',
    text='For every contract entry (28 module-level functions, ~100 exported kernels), both module types, both CPU dispatch paths and every shape of an explicit box including all zero/unequal/threshold corners: reads/writes inside declared extents and inside the bytes returned by the library\'s own bytes_of_*/tmp_bytes functions, outputs fully written, no read of unwritten output/scratch, tables read-only and in bounds, no wrapped loop bound, size functions pure, new/delete pairing, no alignment-sensitive access on caller buffers. Data values are abstract (all inputs covered); shapes are covered on the box, not for all sizes.',
    note='trusted: clang/LLVM-14 IR + canonicalisation passes, irdump, spqa.contract/spqa.kernels tables (transcribed from the headers), asm scan of the four .s kernels; data-dependent sanity checks of table contents (if (...) abort()) assumed to pass', ref='DESIGN 2/E3, 3/C11'),
